@@ -6,7 +6,7 @@
     observation after every external step
  4. replay on the real adaptors (ASan/UBSan; the outer receiver destroys the operation inside its completion)
  5. compare observation fields relevant to the property; recorded event logs validated by TLC against AlgMon."""
-import collections, hashlib, json, os, sys, time
+import collections, hashlib, json, os, random, sys, time
 
 sys.path.insert(0, os.path.join(os.path.dirname(__file__), "..", "..", "tools"))
 sys.path.insert(0, os.path.dirname(__file__))
@@ -188,7 +188,7 @@ def run(ctx):
     with open(bp, "w") as f:
         for i, b in enumerate(behaviours):
             f.write(json.dumps(dict(b=i, cfg=b["cfg"], steps=[dict(k=s["k"], n=s["n"], ch=s["ch"]) for s in b["steps"]])) + "\n")
-    per_cfg, spec_dev = {}, {}
+    per_cfg, spec_dev, c20_fault = {}, {}, {}
 
     def replay_cfg(bc):
         # ---- build
@@ -373,6 +373,35 @@ def run(ctx):
             ex = vlib.split_executions(lp)
             if ex:
                 rep.sample(dict(kind="recorded-trace", events=[json.loads(x) for x in ex[len(ex) // 2][1][:40]]))
+        # ---- C20: the copy-fault family in every configuration (the same executions, chosen once); outcomes are compared pairwise
+        if prop == "C20":
+            if "cand" not in c20_fault:
+                cand = [x for x, b in enumerate(behaviours) if got.get(x) and got[x].get("copies", 0) > 0 and not b["cfg"].get("throwAt")]
+                random.Random(ctx.seed).shuffle(cand)
+                cand = cand[:(300 if ctx.quick else 3000)]
+                c20_fault["cand"] = [(x, k) for x in cand for k in range(1, min(got[x]["copies"], 6) + 1)]
+            fbl = c20_fault["cand"]
+            fbp = os.path.join(ctx.work, "c20_fault_%s.ndjson" % bc["name"])
+            with open(fbp, "w") as f:
+                for i, (x, k) in enumerate(fbl):
+                    b = behaviours[x]
+                    f.write(json.dumps(dict(b=i, cfg=b["cfg"], copyThrowAt=k, steps=[dict(k=s["k"], n=s["n"], ch=s["ch"]) for s in b["steps"]])) + "\n")
+            fout = os.path.join(ctx.work, "c20_fault_out_%s.ndjson" % bc["name"])
+            flp = os.path.join(ctx.work, "c20_fault_log_%s.ndjson" % bc["name"])
+            sums, fdeaths = vlib.run_batches(ctx, exe, ["--behaviours", fbp, "--out", fout], len(fbl), flp, timeout=3000, recover=True)
+            outc = {}
+            if os.path.exists(fout):
+                for l in open(fout):
+                    try:
+                        r = json.loads(l)
+                    except Exception:
+                        continue
+                    outc[r["x"]] = json.dumps([[rr["ch"], rr["p"]] for rr in r.get("final", {}).get("root", [])]) + (" live=%d" % r["live"] if r["live"] else "")
+            for d in fdeaths:
+                outc[d["x"]] = "death:%s" % d["event"]
+            per_cfg[bc["name"]]["fault"] = outc
+            rep.evaluations += len(fbl)
+            rep.note("[%s] copy-fault family: %d executions" % (bc["name"], len(fbl)))
         # ---- fault injection (C02, and C01 in the thorough tier): the k-th copy of a tracked value throws
         if prop == "C02" or (prop in ("C01",) and not ctx.quick):
             cand = [(x, b) for x, b in enumerate(behaviours) if got.get(x) and got[x].get("copies", 0) > 0 and not b["cfg"].get("throwAt")]
@@ -500,6 +529,16 @@ def run(ctx):
                                        steps=[(s["k"], s["n"], s["ch"]) for s in b["steps"]],
                                        what="%s: observations differ between configurations %s and %s [modes %s, steps %s]" % (
                                            sh["text"], ref, nm, json.dumps(b["cfg"]["mode"], sort_keys=True), [(s["k"], s["n"], s["ch"]) for s in b["steps"]])))
+            fa, fc = per_cfg[ref].get("fault", {}), per_cfg[nm].get("fault", {})
+            for i, (x, k) in enumerate(c20_fault.get("cand", [])):
+                if fa.get(i) != fc.get(i):
+                    ndiff += 1
+                    b = behaviours[x]
+                    sh = by_id[b["cfg"]["shape"]]["spec"]
+                    rep.violation(dict(engine="alg", event="ConfigDiffers", configs=[ref, nm], shape=sh["text"], kinds=sorted(set(sh["kind"])), mode=b["cfg"]["mode"],
+                                       copyThrowAt=k, steps=[(s["k"], s["n"], s["ch"]) for s in b["steps"]],
+                                       what="%s with value copy #%d throwing: %s gives %s, %s gives %s [modes %s, steps %s]" % (
+                                           sh["text"], k, ref, fa.get(i), nm, fc.get(i), json.dumps(b["cfg"]["mode"], sort_keys=True), [(s["k"], s["n"], s["ch"]) for s in b["steps"]])))
         devs = set(json.dumps(v, sort_keys=True) for v in spec_dev.values())
         rep.note("configurations compared pairwise against %s: %d differing executions; deviations from Senders.tla shared by all configurations: %d executions (decided by C05/C04/C11/C12)" % (
             ref, ndiff, len(next(iter(spec_dev.values()), {}))))
